@@ -9,13 +9,129 @@ from cvxopt import matrix, lapack, base, spmatrix, sparse
 def mk(spec):
     if spec is None: return None
     tc, m, n = spec
-    if tc == 'i': return matrix([(i % 3) + 1 for i in range(m * n)], (m, n), 'i')
+    if tc == 'i': return matrix([i + 1 for i in range(m * n)], (m, n), 'i')     # identity pivots: the only content LAPACK is defined on without a factorisation
     if tc == 'd':
         M = matrix([float((i * 7) % 5 - 2) for i in range(m * n)], (m, n), 'd')
     else:
         M = matrix([complex((i * 7) % 5 - 2, (i * 3) % 4 - 1) for i in range(m * n)], (m, n), 'z')
     for i in range(min(m, n)): M[i, i] += 9.0          # mostly nonsingular / positive diagonals
     return M
+
+def mksp(spec):
+    tc, m, n, seed = spec
+    I, J, V = [], [], []
+    for j in range(n):
+        for i in range(m):
+            if (i * 3 + j * 5 + seed) % 3 == 0:
+                I.append(i); J.append(j); V.append(float((i + 2 * j) % 4 + 1) if tc == 'd' else complex((i + 2 * j) % 4 + 1, (i + j) % 3 - 1))
+    return spmatrix(V, I, J, (m, n), tc)
+
+def val(v, dense=False):
+    if 'mat' in v: return mk(v['mat'])
+    if 'sp' in v: return matrix(mksp(v['sp'])) if dense else mksp(v['sp'])
+    if 'int' in v: return v['int']
+    if 'chr' in v: return v['chr']
+    if 'flt' in v: return v['flt']
+    if 'num' in v: return complex(*v['num']) if isinstance(v['num'], list) else v['num']
+    if 'bool' in v: return bool(v['bool'])
+    if 'obj' in v: return 7 if v['obj'] == 'int' else None
+    raise ValueError(v)
+
+class CCSInvalid(Exception): pass
+
+def base_case(case):
+    """generic products / elementwise operations of base.c with dense and sparse operands; with `twin` the call is repeated with every
+    sparse operand replaced by its dense image and the results are compared"""
+    def call(dense):
+        kw = {k: val(v, dense) for k, v in case['args'].items()}
+        pos = [kw.pop(k) for k in case.get('pos', [])]
+        r = getattr(base, case['routine'])(*pos, **kw)
+        outs = pos + [kw[k] for k in sorted(kw)] + [r]
+        for o in outs:
+            if isinstance(o, spmatrix):
+                cp, ri, vv = o.CCS; cp, ri = list(cp), list(ri)
+                m_, n_ = o.size
+                okc = len(cp) == n_ + 1 and cp[0] == 0 and all(cp[j] <= cp[j + 1] for j in range(n_)) and cp[-1] == len(ri) == len(vv) and \
+                      all(0 <= ri[q] < m_ for q in range(len(ri))) and all(ri[q] < ri[q + 1] for j in range(n_) for q in range(cp[j], cp[j + 1] - 1))
+                if not okc: raise CCSInvalid()
+        return [list(matrix(o)) + list(o.size) for o in outs if hasattr(o, 'size')]
+    try: o1 = call(False)
+    except CCSInvalid: return 'ccs-invalid'
+    if case.get('twin') and any('sp' in v for v in case['args'].values()):
+        try: o2 = call(True)
+        except Exception: return 'ok'
+        if len(o1) != len(o2): return 'twin-differs'
+        tri = case['args'].get('uplo', {'chr': 'L'})['chr'] if case['routine'] == 'syrk' else None
+        for a, b in zip(o1, o2):
+            if len(a) != len(b): return 'twin-differs'
+            m_, n_ = int(a[-2]), int(a[-1])
+            for idx, (x, y) in enumerate(zip(a[:-2], b[:-2])):
+                i, j = idx % max(m_, 1), idx // max(m_, 1)
+                if tri and m_ == n_ and ((tri == 'L' and i < j) or (tri == 'U' and i > j)): continue      # syrk: the other triangle is not referenced
+                if abs(complex(x) - complex(y)) > 1e-9 * (1 + abs(complex(x))): return 'twin-differs'
+    return 'ok'
+
+SENT = 777.0
+def embed_case(case):
+    """the same call twice: on plain matrices, and with every array argument embedded in a larger buffer (sentinel-filled, offset > 0,
+    leading dimension > rows) and all dimensions passed explicitly.  Both must give the same numbers in the embedded positions, and the
+    embedded call must leave every sentinel alone."""
+    mod = lapack
+    def build():
+        kw = {}
+        for name, v in case['args'].items():
+            if 'mat' in v: kw[name] = mk(v['mat'])
+            elif 'int' in v: kw[name] = v['int']
+            elif 'chr' in v: kw[name] = v['chr']
+            elif 'flt' in v: kw[name] = v['flt']
+            elif 'obj' in v: kw[name] = 7 if v['obj'] == 'int' else None
+        kw.update(case['dims'])
+        return kw
+    kw1 = build()
+    try: r1 = getattr(mod, case['routine'])(**kw1)
+    except Exception as e: return 'skip-plain-' + type(e).__name__
+    kw2 = build(); pad, off = case.get('pad', 2), case.get('off', 3)
+    layout = {}
+    for an, e in case['emb'].items():
+        X = kw2[an]; m, n = X.size
+        if e.get('ld'):
+            ld = max(1, m) + pad
+            E = matrix(SENT, (off + ld * max(n, 1), 1), X.typecode)
+            for j in range(n):
+                for i in range(m): E[off + i + j * ld] = X[i, j]
+            kw2[e['ld']] = ld
+        else:
+            ld = m
+            E = matrix(SENT, (off + m * n + pad, 1), X.typecode)
+            for k in range(m * n): E[off + k] = X[k]
+        kw2[e['off']] = off
+        kw2[an] = E; layout[an] = (m, n, ld)
+    try: r2 = getattr(mod, case['routine'])(**kw2)
+    except Exception as e: return 'embed-raises-%s' % type(e).__name__
+    if r1 != r2: return 'return-differs'
+    import math
+    def bad(a, b):
+        if isinstance(a, complex) or isinstance(b, complex):
+            a, b = complex(a), complex(b)
+            if any(math.isnan(t) for t in (a.real, a.imag, b.real, b.imag)): return not (math.isnan(a.real) == math.isnan(b.real) and math.isnan(a.imag) == math.isnan(b.imag))
+            return abs(a - b) > 1e-7 * (1.0 + abs(a))
+        if math.isnan(a) or math.isnan(b): return not (math.isnan(a) and math.isnan(b))
+        return abs(a - b) > 1e-7 * (1.0 + abs(a))
+    for an, v in kw1.items():
+        if not hasattr(v, 'size'): continue
+        if an in layout:
+            m, n, ld = layout[an]; E = kw2[an]
+            inside = set()
+            for j in range(n):
+                for i in range(m):
+                    inside.add(off + i + j * ld)
+                    if bad(v[i, j], E[off + i + j * ld]): return 'result-differs-' + an
+            for k in range(len(E)):
+                if k not in inside and E[k] != SENT: return 'sentinel-changed-' + an
+        else:
+            w2 = kw2[an]
+            if v.size != w2.size or any(bad(a, b) for a, b in zip(v, w2)): return 'result-differs-' + an
+    return 'ok'
 
 for line in sys.stdin:
     case = json.loads(line)
@@ -27,6 +143,13 @@ for line in sys.stdin:
             elif 'int' in v: kw[name] = v['int']
             elif 'chr' in v: kw[name] = v['chr']
             elif 'flt' in v: kw[name] = v['flt']
+            elif 'obj' in v: kw[name] = 7 if v['obj'] == 'int' else None
+        if case['kind'] == 'embed':
+            res = embed_case(case); kw = None; gc.collect()
+            print('RESULT %d %s' % (case['id'], 'ok' if res == 'ok' else 'exc ' + res)); sys.stdout.flush(); continue
+        if case['kind'] == 'base':
+            res = base_case(case); gc.collect()
+            print('RESULT %d %s' % (case['id'], 'ok' if res == 'ok' else 'exc ' + res)); sys.stdout.flush(); continue
         mod = {'lapack': lapack, 'base': base}[case['kind']]
         getattr(mod, case['routine'])(**kw)
         # touch the results
